@@ -346,7 +346,18 @@ def keeps_variant(F, body, report, self_lid=None, plain_fields=(), reviewed=None
     adt = norm_path(body.get("impl_self") or "")
     ms = [m for m in hirq.matches(body["hir"]) if hirq.unwrap_trivial(m["scrut"]).get("k") == "Path" and hirq.unwrap_trivial(m["scrut"]).get("res") == "self"]
     if not ms:
-        return 0
+        # a pass over a struct (Array, Block, Reference, ..): it either hands every node back as it is (a checking-only impl) or
+        # rebuilds every node from its visited children; a mixture means some nodes skip the visit through an early return
+        leaves = [hirq.unwrap_trivial(l) for l in result_leaves(body["hir"])]
+        selfs = [l for l in leaves if l.get("k") == "Path" and l.get("rk") == "Local" and l.get("res") == "self"]
+        rebuilt = [l for l in leaves if l.get("k") == "Struct" and norm_path(l.get("path", "")) == adt]
+        if selfs and rebuilt:
+            report("%s -> self on some paths" % adt.split("::")[-1], False, F.where(body, selfs[0]),
+                   "%s is rebuilt from its visited children on some paths and handed back unvisited on others: what the pass looks for is not found "
+                   "in the nodes that take the shortcut" % adt.split("::")[-1], None)
+        elif rebuilt:
+            report("%s rebuilt on every path" % adt.split("::")[-1], True, F.where(body), "", None)
+        return 1 if leaves else 0
     m = max(ms, key=lambda x: len(x["arms"]))
     n = 0
     for a in m["arms"]:
